@@ -10,7 +10,7 @@
    Translated pieces (Gen/TariffK_Z.v, Gen/TariffK_Q.v, regenerated on every run) are *called* here:
    Tariff_valid, Tariff_wraps, Tariff_wrap_copy_start, Tariff_wrap_orig_end, Tariff_mask_*, Tariff_step_time, Iface_price_start, Iface_demand_start,
    Tariff_target_hour, Tariff_bp_test, Analysis_energy_cost, Analysis_demand_charge. *)
-From Coq Require Import ZArith QArith Qminmax List Bool String.
+From Coq Require Import ZArith QArith Qminmax Qround List Bool String.
 From ACN Require Import Base.Num Base.Lex Base.Sort Base.Calendar Base.TariffRaw
                         Gen.Tariffs Gen.TariffK_Z Gen.TariffK_Q.
 Import ListNotations.
@@ -174,6 +174,43 @@ Definition iface_get_demand_charge (sim : simview) (start : option Z) : res Q :=
       get_demand_charge TS (Iface_demand_start (sim_period sim) (sim_start sim) st)
   end.
 
+(* ------------------------------------------------------------------ fractional simulation periods *)
+(* Simulator.period may be a float number of minutes (2.5, 0.5, 7.5 …).  timedelta(minutes=p) is p * 6e7
+   microseconds; the rational kernels (Gen/TariffK_Q.v, the same source expressions) compute that product exactly
+   and the instant is its integer part — exact whenever p * 6e7 is a whole number of microseconds, which is the
+   domain the correspondence uses (timedelta rounds other values to the nearest microsecond; not modelled). *)
+Definition instant_of_q (x : Q) : Z := Qfloor x.
+
+Fixpoint get_tariffs_loop_q (TS : list sched) (start length : Z) (period : Q) (k : Z) (n : nat) : res (list Q) :=
+  match n with
+  | O => Ok []
+  | S n' =>
+      res_bind (get_tariff TS (instant_of_q (Tariff_step_time_q (inject_Z k) (inject_Z start) (inject_Z length) period)))
+               (fun p => res_map (cons p) (get_tariffs_loop_q TS start length period (k + 1) n'))
+  end.
+
+Definition get_tariffs_q (TS : list sched) (start length : Z) (period : Q) : res (list Q) :=
+  get_tariffs_loop_q TS start length period 0 (Z.to_nat length).
+
+Definition iface_get_prices_q (tariff : option (list sched)) (sim_start : Z) (period : Q) (iteration : Z)
+           (length : Z) (start : option Z) : res (list Q) :=
+  match tariff with
+  | None => Err "ValueError:nopricing"
+  | Some TS =>
+      let st := match start with None => iteration | Some s => s end in
+      get_tariffs_q TS (instant_of_q (Iface_price_start_q period (inject_Z sim_start) (inject_Z length) (inject_Z st)))
+                    length period
+  end.
+
+Definition iface_get_demand_charge_q (tariff : option (list sched)) (sim_start : Z) (period : Q) (iteration : Z)
+           (start : option Z) : res Q :=
+  match tariff with
+  | None => Err "ValueError:nopricing"
+  | Some TS =>
+      let st := match start with None => iteration | Some s => s end in
+      get_demand_charge TS (instant_of_q (Iface_demand_start_q period (inject_Z sim_start) (inject_Z st)))
+  end.
+
 (* ------------------------------------------------------------------ analysis *)
 Fixpoint Qdot (a b : list Q) : Q :=
   match a, b with
@@ -190,6 +227,10 @@ Definition energy_cost_agg (TS : list sched) (start period : Z) (agg : list Q) :
   res_map (fun prices => Analysis_energy_cost (inject_Z period) 0 0 (Qdot prices agg))
           (get_tariffs TS start (Z.of_nat (List.length agg)) period).
 
+Definition energy_cost_agg_q (TS : list sched) (start : Z) (period : Q) (agg : list Q) : res Q :=
+  res_map (fun prices => Analysis_energy_cost period 0 0 (Qdot prices agg))
+          (get_tariffs_q TS start (Z.of_nat (List.length agg)) period).
+
 Definition demand_charge_agg (TS : list sched) (start : Z) (agg : list Q) : res Q :=
   res_bind (get_demand_charge TS start) (fun dc =>
   match agg with
@@ -199,6 +240,8 @@ Definition demand_charge_agg (TS : list sched) (start : Z) (agg : list Q) : res 
 
 Definition energy_cost (TS : list sched) (start period : Z) (voltages : list Q) (cols : list (list Q)) :=
   energy_cost_agg TS start period (aggregate_power voltages cols).
+Definition energy_cost_q (TS : list sched) (start : Z) (period : Q) (voltages : list Q) (cols : list (list Q)) :=
+  energy_cost_agg_q TS start period (aggregate_power voltages cols).
 Definition demand_charge (TS : list sched) (start : Z) (voltages : list Q) (cols : list (list Q)) :=
   demand_charge_agg TS start (aggregate_power voltages cols).
 
@@ -330,7 +373,15 @@ Inductive c17case :=
 | CPrices (src : option tsrc) (start period iteration length : Z) (st : option Z) (expect : res (list Q))
 | CIfaceDemand (src : option tsrc) (start period iteration : Z) (st : option Z) (expect : res Q)
 | CEnergy (src : tsrc) (start period : Z) (voltages : list Q) (cols : list (list Q)) (expect : res Q)
-| CDemandCharge (src : tsrc) (start : Z) (voltages : list Q) (cols : list (list Q)) (expect : res Q).
+| CDemandCharge (src : tsrc) (start : Z) (voltages : list Q) (cols : list (list Q)) (expect : res Q)
+(* fractional periods *)
+| CTariffsQ (src : tsrc) (start length : Z) (period : Q) (expect : res (list Q))
+| CPricesQ (src : option tsrc) (start : Z) (period : Q) (iteration length : Z) (st : option Z) (expect : res (list Q))
+| CIfaceDemandQ (src : option tsrc) (start : Z) (period : Q) (iteration : Z) (st : option Z) (expect : res Q)
+| CEnergyQ (src : tsrc) (start : Z) (period : Q) (voltages : list Q) (cols : list (list Q)) (expect : res Q).
+
+Definition load_opt (src : option tsrc) : res (option (list sched)) :=
+  match src with None => Ok None | Some sr => res_map Some (load sr) end.
 
 Definition with_tariff {A} (src : tsrc) (f : list sched -> res A) : res A :=
   match load src with Ok TS => f TS | Err e => Err ("ctor:" ++ e) end.
@@ -360,4 +411,10 @@ Definition check_c17 (c : c17case) : bool :=
       res_eqb Qeqb (match mk_sim src st p it with Ok sim => iface_get_demand_charge sim s | Err x => Err ("ctor:" ++ x) end) e
   | CEnergy src st p v cols e => res_eqb Qclose (with_tariff src (fun TS => energy_cost TS st p v cols)) e
   | CDemandCharge src st v cols e => res_eqb Qclose (with_tariff src (fun TS => demand_charge TS st v cols)) e
+  | CTariffsQ src st n p e => res_eqb Qeq_list (with_tariff src (fun TS => get_tariffs_q TS st n p)) e
+  | CPricesQ src st p it n s e =>
+      res_eqb Qeq_list (match load_opt src with Ok t => iface_get_prices_q t st p it n s | Err x => Err ("ctor:" ++ x) end) e
+  | CIfaceDemandQ src st p it s e =>
+      res_eqb Qeqb (match load_opt src with Ok t => iface_get_demand_charge_q t st p it s | Err x => Err ("ctor:" ++ x) end) e
+  | CEnergyQ src st p v cols e => res_eqb Qclose (with_tariff src (fun TS => energy_cost_q TS st p v cols)) e
   end.
